@@ -265,9 +265,8 @@ def main(ctx):
             ("etsi_3gpp_s13", "MeIdentityCheckRequest")])
     idxs = [i for i, (r, a) in enumerate(ps) if (r["lib"], r["cls"]) in want]
     jobs = [(lo, min(lo + 500, 6000), i) for i in idxs for lo in range(1001, 6000, 500)]
-    with multiprocessing.get_context("fork").Pool(16) as pool:
-        for part in pool.imap_unordered(_sweep, jobs):
-            col.merge(part)
+    for part in common.pmap(_sweep, jobs):
+        col.merge(part)
     col.exhaustive = True
     col.extra["exhaustive_scope"] = f"every Result-Code 1001..5999 (non-multiples of 1000) through decorate_answer on {len(idxs)} request/answer pair(s)"
     for path, rec in common.load_replays(PID):
